@@ -1,7 +1,7 @@
 (* C04 — decoding of histories, evaluation with the model, canonical printing of every observable. *)
 From Coq Require Import ZArith List String Bool.
 Import ListNotations.
-From TD Require Import Lib.Sexp Model.Keys Model.C04_Tree Model.C04_Ops Model.C04_Views Model.C04_Step.
+From TD Require Import Lib.Sexp Model.Keys Model.C04_Tree Model.C04_Ops Model.C04_Views Model.C04_Step Model.C04_Lazy.
 Open Scope string_scope.
 Open Scope list_scope.
 
@@ -143,11 +143,118 @@ Fixpoint run_hist (es : ents) (reqs : list (op * list (bool * bool * bool * bool
   | (o, fl, pr) :: r => let sr := step es o in enc_step sr fl pr :: run_hist (sr_cont sr) r
   end.
 
+
+(* ------------------------------------------------------------------------------------------------------------
+   lazy stacks (Model/C04_Lazy.v): members ((k v) ...) ..., stacked values (t (z0 z1 ..)) (n (k v) ...) *)
+Fixpoint dec_sval (s : sexp) : option sval :=
+  match s with
+  | SL [SA "t"; SL zs] => option_map SLeaf (dec_list_aux dec_Z zs)
+  | SL (SA "n" :: l) =>
+      option_map SNode ((fix go (l : list sexp) : option (list (string * sval)) :=
+         match l with
+         | [] => Some []
+         | SL [SA k; v] :: r => match dec_sval v, go r with Some a, Some b => Some ((k, a) :: b) | _, _ => None end
+         | _ => None
+         end) l)
+  | _ => None
+  end.
+
+Definition dec_lop (s : sexp) : option lop :=
+  match s with
+  | SL [SA "nop"] => Some LNop
+  | SL [SA "set"; k; v] => match dec_key k, dec_sval v with Some k, Some v => Some (LSet k v) | _, _ => None end
+  | SL [SA "setitem"; k; v] => match dec_key k, dec_sval v with Some k, Some v => Some (LSetItem k v) | _, _ => None end
+  | SL [SA "del"; k] => option_map LDel (dec_key k)
+  | SL [SA "delitem"; k] => option_map LDel (dec_key k)
+  | SL [SA "pop"; k; d] => match dec_key k, dec_opt dec_Z d with Some k, Some d => Some (LPop k d) | _, _ => None end
+  | SL [SA "rename"; a; b; safe] =>
+      match dec_key a, dec_key b, dec_bool safe with Some a, Some b, Some s => Some (LRename a b s) | _, _, _ => None end
+  | SL [SA "update"; items] => option_map LUpdate (dec_list (dec_pair dec_key dec_sval) items)
+  | SL [SA "setdefault"; k; v] => match dec_key k, dec_sval v with Some k, Some v => Some (LSetDefault k v) | _, _ => None end
+  | SL [SA "select"; ks; i; st; c] =>
+      match dec_list dec_key ks, dec_bool i, dec_bool st, dec_bool c with
+      | Some ks, Some i, Some st, Some c => Some (LSelect ks i st c) | _, _, _, _ => None end
+  | SL [SA "exclude"; ks; i; c] =>
+      match dec_list dec_key ks, dec_bool i, dec_bool c with
+      | Some ks, Some i, Some c => Some (LExclude ks i c) | _, _, _ => None end
+  | SL [SA "flatten"; SA sep; i; c] =>
+      match dec_bool i, dec_bool c with Some i, Some c => Some (LFlatten sep i c) | _, _ => None end
+  | SL [SA "unflatten"; SA sep; i; c] =>
+      match dec_bool i, dec_bool c with Some i, Some c => Some (LUnflatten sep i c) | _, _ => None end
+  | SL [SA "clear"] => Some LClear
+  | SL [SA "filter_empty"] => Some LFilterEmpty
+  | _ => None
+  end.
+
+Definition enc_stack (ms : lstack) : sexp := SL (map enc_ents ms).
+
+Definition enc_lval (v : lval) : sexp :=
+  match v with
+  | LVLeaf vs => SL [SA "t"; SL (map (fun w => match w with Leaf _ z => SZ z | Node _ => SA "node" end) vs)]
+  | LVStack ms => SL (SA "stack" :: map enc_ents ms)
+  end.
+
+Definition enc_lget (g : lgres) (dflt : string) : sexp :=
+  match g with LGVal v => SL [SA "val"; enc_lval v] | LGDef => SL [SA dflt] | LGRaise e => enc_err e end.
+
+Definition enc_lview (f : bool * bool * bool * bool) (ms : lstack) : sexp :=
+  let '(inc, lo, so, _) := f in
+  SL [ match lz_keys_view inc lo so ms with Ok l => SL (map enc_path l) | Raise e => enc_err e end;
+       match lz_items_view inc lo so ms with
+       | Ok l => SL (map (fun kv => SL [enc_path (fst kv); enc_lval (snd kv)]) l) | Raise e => enc_err e end;
+       match lz_values_view inc lo so ms with Ok l => SL (map enc_lval l) | Raise e => enc_err e end;
+       match lz_len_view inc lo so ms with Ok n => enc_nat n | Raise e => enc_err e end ].
+
+Definition enc_lprobe (kf : pykey * (bool * bool * bool * bool)) (ms : lstack) : sexp :=
+  let '(k, (inc, lo, _, _)) := kf in
+  SL [ enc_resb (lz_keys_contains inc lo k ms); enc_resb (lz_td_contains k ms);
+       enc_lget (lz_get k ms) "none"; enc_lget (lz_get k ms) "default" ].
+
+Definition enc_lret (r : lretval) : sexp :=
+  match r with
+  | LRNone => SA "none"
+  | LRVal v => SL [SA "some"; enc_lval v]
+  | LRDefault z => SL [SA "some"; SL [SA "default"; SZ z]]
+  | LRPyNone => SL [SA "some"; SL [SA "pynone"]]
+  end.
+
+Definition enc_lstep (r : lstepres) (flags : list (bool * bool * bool * bool))
+           (probes : list (pykey * (bool * bool * bool * bool))) : sexp :=
+  let st := lr_cont r in
+  SL [ match lr_err r with None => SA "ok" | Some e => enc_err e end;
+       enc_lret (lr_ret r);
+       match lr_results r with None => SA "none" | Some l => SL [SA "some"; SL (map enc_stack l)] end;
+       enc_stack (lr_self r);
+       enc_stack st;
+       SL (map (fun f => enc_lview f st) flags);
+       SL (map (fun kf => enc_lprobe kf st) probes);
+       enc_resb (lz_is_empty st) ].
+
+Definition dec_lstepreq (s : sexp) : option (lop * list (bool * bool * bool * bool) * list (pykey * (bool * bool * bool * bool))) :=
+  match s with
+  | SL [o; fl; pr] =>
+      match dec_lop o, dec_list dec_flags fl, dec_list (dec_pair dec_key dec_flags) pr with
+      | Some o, Some fl, Some pr => Some (o, fl, pr) | _, _, _ => None end
+  | _ => None
+  end.
+
+Fixpoint run_lhist (ms : lstack) (reqs : list (lop * list (bool * bool * bool * bool) * list (pykey * (bool * bool * bool * bool))))
+  : list sexp :=
+  match reqs with
+  | [] => []
+  | (o, fl, pr) :: r => let sr := lz_step ms o in enc_lstep sr fl pr :: run_lhist (lr_cont sr) r
+  end.
+
 Definition dispatch (cmd : string) (args : list sexp) : option sexp :=
   match cmd, args with
   | "hist", [init; steps] =>
       match dec_ents init, dec_list dec_stepreq steps with
       | Some es, Some reqs => Some (SL (run_hist es reqs))
+      | _, _ => None
+      end
+  | "lhist", [init; steps] =>
+      match dec_list dec_ents init, dec_list dec_lstepreq steps with
+      | Some ms, Some reqs => Some (SL (run_lhist ms reqs))
       | _, _ => None
       end
   | _, _ => None
